@@ -135,7 +135,11 @@ class Writer(object):
     if len(creates) != 1 or creates[0][1] != metric:
       return ('bad', creates)
     e = creates[0]
-    return ('ok', [tuple(a) for a in e[4]], (e[5], e[6]))
+    try:
+      rets = [tuple(a) for a in e[4]]
+    except TypeError:
+      rets = [repr(a) for a in e[4]]       # not (secondsPerPoint, points) pairs at all
+    return ('ok', rets, (e[5], e[6]))
 
 
 def shard(arg):
